@@ -19,9 +19,15 @@ META = {
     "text": "Lean theorems on the executable model: EVERY array access of the executable LZMA1/LZMA2 decoder models (probability "
             "array, history, input) is within its array on every input, and every dict_get/dict_get0/dict_put/dict_repeat/dict_write "
             "happens with distance < dict.full and with the C-level index expressions inside the buffer (instrumented variants with "
-            "partial accessors never report out-of-bounds and return exactly the executable result: decoder_accesses_in_bounds); no "
-            "container/Index/VLI/file-info decoder model ever exhausts its loop fuel (fuel independence from the supplied amount "
-            "upward: decoder_fuel_never_exhausted); probability-array index formulas (literal_subcoder, dist/align/len coders) are in "
+            "partial accessors, which also test every probability index against the bounds of its OWN C member array (is_match, "
+            "is_rep..., dist_slot, pos_special, pos_align, length-decoder members, literal; member_table_matches_code ties the "
+            "table to the compiled struct), never report out-of-bounds and return exactly the executable result: "
+            "decoder_accesses_in_bounds); no "
+            "container/Index/VLI/file-info/index-iterator decoder model ever reaches its out-of-fuel branch with the fuel supplied "
+            "(Option-valued instrumented twins f? return some(f ...) whenever the fuel exceeds the stated measure: "
+            "decoder_fuel_never_exhausted, index_iterator_fuel_never_exhausted; the two loops whose 0 branch is a base case / "
+            "the truncated-input answer need one more unit and the statement says so; fuel independence kept as "
+            "decoder_fuel_independent); probability-array index formulas (literal_subcoder, dist/align/len coders) are in "
             "bounds for lc+lp<=4; one LZMA symbol reads at most LZMA_IN_REQUIRED=20 bytes (on the 203 bit shapes and on the executable "
             "symbol decoder itself); every seek request of the file-info decoder model lies inside the file; probabilities stay in [31,2017]; VLI "
             "decoding never exceeds 63 bits; Block Header size bounds; the Index record count is checked against the memory limit "
